@@ -589,6 +589,11 @@ def run_case(case):
       # what arrives after the socket started to fail need not be delivered (the connection may be gone)
       fr = min(int(faults.get("round", 0)), len(v.chunks) - 1)
       fl = sum(len(ch) for ch in v.chunks[:fr + 1])
+      if faults.get("send", "ok") != "ok":
+        # a failing send happens while some message of the fault round is being handled (the reply to the first
+        # one, say): from that instant the connection is dead, and the later messages of the same read are addressed
+        # to a dead connection.  Only what was complete before the fault round must have been delivered.
+        fl = sum(len(ch) for ch in v.chunks[:fr])
       must_until = fl if must_until is None else min(must_until, fl)
     victims = {"v": (v, vstream, intact_expect, must_until)}
     if second:
@@ -682,6 +687,15 @@ def _judge(out, case, side, direction, loop, conns, roles, victims, sib_expect, 
   for i, ex in enumerate(sib_expect):
     c = conns["s%d" % i]
     if c.sock.closed or c.handle not in selected or any(e[0] == "C" for e in c.tap.events):
+      if case.get("_control"):
+        out.label("control:sibling-closed:%d" % i)
+        continue
+      if i in _closed_without_offender(case):
+        # containment is a statement about the OFFENDER's effect: the receiver dropped this sibling because of the
+        # sibling's own (well-formed) traffic -- e.g. a barrier reply with a foreign xid during the handshake --
+        # and does so too when the victim sends nothing malformed
+        out.label("sibling-dropped-by-its-own-traffic")
+        continue
       out.fail("sibling-closed", "sibling %d was closed / is no longer selected on by the %s loop (victim at offset %d, %s)" % (
           i, side, pos, cause), side=side, cause=cause)
       continue
@@ -695,6 +709,19 @@ def _judge(out, case, side, direction, loop, conns, roles, victims, sib_expect, 
   # ---- (iv), (v): each victim
   for tag, (vc, vs, ie, fb) in sorted(victims.items()):
     _judge_victim(out, side, direction, vc, vs, ie, fb, selected, tag)
+
+
+def _closed_without_offender(case):
+  """control run (only made when a sibling was found closed): the same connections, siblings' traffic and
+  segmentation, but the victim(s) send only their well-formed messages and no socket fault is injected.
+  -> indices of the siblings the receiver closes anyway."""
+  ctl = dict(case)
+  ctl["_control"] = True
+  for k in ("victim2", "faults", "eof", "wcuts", "wdelay", "wpos"):
+    ctl.pop(k, None)
+  ctl["victim"] = [{"m": it["m"]} for it in case["victim"] if "m" in it]
+  o2 = run_case(ctl)
+  return set(int(l.rsplit(":", 1)[1]) for l in o2.labels if l.startswith("control:sibling-closed:"))
 
 
 def _judge_victim(out, side, direction, v, vstream, intact_expect, first_bad, selected, tag):
@@ -819,6 +846,15 @@ def _judge_victim(out, side, direction, v, vstream, intact_expect, first_bad, se
     if ex is None:
       continue
     if delivered.get(s) != ex:
+      if side == "ctl" and s not in delivered and getattr(v.handle, "disconnected", False):
+        # the controller itself gave the connection up for a protocol reason carried by WELL-FORMED bytes: a barrier
+        # reply with a foreign xid after the features reply ends the handshake attempt (of_01 "failed connect").  What
+        # follows that barrier reply is addressed to a connection that no longer exists and need not be delivered.
+        feats = [s0 for s0, d0, _ in intact_expect if d0[1] == R.FEATURES_REPLY]
+        gave_up = [s0 for s0, d0, _ in intact_expect if d0[1] == R.BARRIER_REPLY and feats and s0 > feats[0] and s0 < s]
+        if gave_up and all(x <= gave_up[-1] or x < s for x in delivered) and not any(x > s for x in delivered):
+          out.label("not-delivered-after-controller-gave-up")
+          break
       out.fail("prefix-lost", "the intact message at offset %d (type %d), sent before any corruption, was %s" % (
           s, d[1], "not delivered" if s not in delivered else "delivered altered"), side=side, cause=cause)
       break
